@@ -145,7 +145,8 @@ JudgeStmt(c, i, bytes, off, cgb) ==
       size == IF Len(bytes) # c.psz[i]
               THEN {[Mk(<<"C03">>, "pass-1 size differs from emitted length")
                      EXCEPT !.dev = IF s.k = "ins" /\ cgb # bits /\ cgb = c.bits /\ OpsDefined(s.ops, env)
-                                       /\ (Denotes(bytes, s, cgb, V) \/ Dev66(bytes, s, cgb, V)) THEN "D_BitsGlobal" ELSE ""]}
+                                       /\ (Denotes(bytes, s, cgb, V) \/ Dev66(bytes, s, cgb, V)) THEN "D_BitsGlobal"
+                                    ELSE IF s.k = "far" /\ s.offnm = "" /\ cgb # bits /\ cgb = c.bits /\ FarDenotes(bytes, s.seg, s.off, cgb) THEN "D_BitsGlobal" ELSE ""]}
               ELSE {}
   IN
   CASE s.k = "data" ->
@@ -263,8 +264,14 @@ JudgeEnd(c, e) ==
                 : j \in {x \in brs : TgtOK(x) /\ ~BranchDenotes(c.sb[x], c.stmts[x].mn, c.org + RealOff(x), Tgt(x), c.bitsS[x])}}
       undef == {Mk(j, <<"C07">>, "branch to undefined label assembled silently", c.sb[j]) : j \in {x \in brs : ~TgtOK(x)}}
       fars == {j \in 1..n : c.stmts[j].k = "far" /\ j \notin c.dg /\ c.sb[j] # << >>}
-      farrej == {Mk(j, <<"C04">>, "far jump does not encode its pointer", c.sb[j])
-                 : j \in {x \in fars : ~FarDenotes(c.sb[x], c.stmts[x].seg, c.stmts[x].off, c.bitsS[x])}}
+      \* the offset of a far pointer is a number or a label (then: the real address of the label)
+      FarOffOK(j) == c.stmts[j].offnm = "" \/ LabIdx(c.stmts[j].offnm) # {}
+      FarOff(j) == IF c.stmts[j].offnm = "" THEN c.stmts[j].off ELSE RealAddr(c.stmts[j].offnm)
+      farundef == {Mk(j, <<"C07">>, "far jump to an undefined label assembled silently", c.sb[j]) : j \in {x \in fars : ~FarOffOK(x)}}
+      farrej == {[Mk(j, <<"C04", "C17">>, "far jump does not encode its pointer", c.sb[j])       \* (the pointer width follows the mode in force)
+                  EXCEPT !.dev = IF c.cgbits[j] # c.bitsS[j] /\ c.cgbits[j] = c.bits /\ FarDenotes(c.sb[j], c.stmts[j].seg, FarOff(j), c.cgbits[j])
+                                 THEN "D_BitsGlobal" ELSE ""]
+                 : j \in {x \in fars : FarOffOK(x) /\ ~FarDenotes(c.sb[x], c.stmts[x].seg, FarOff(x), c.bitsS[x])}}
       silent == {Mk(j, <<"C07">>, "statement contributed no bytes and no diagnostic", << >>)
                  : j \in {x \in 1..n : EmitsBytes(c.stmts[x]) /\ x \notin c.dg /\ c.sb[x] = << >> /\ c.ocA[x] > c.ocB[x]}}
   IN
@@ -272,7 +279,7 @@ JudgeEnd(c, e) ==
   ELSE hook \cup cnt \cup
        (IF e.clean /\ c.dg = {}
         THEN (IF \A j \in 1..n : Len(c.sb[j]) = c.psz[j] \/ c.stmts[j].k = "org" THEN labrej \cup total ELSE {})
-             \cup brrej \cup farrej \cup undef \cup silent   \* (size mismatches were reported per statement)
+             \cup brrej \cup farrej \cup farundef \cup undef \cup silent   \* (size mismatches were reported per statement)
         ELSE {})
 
 T_End ==
@@ -307,6 +314,11 @@ JudgeRel(e) ==
          LET AB == res[e.ab] IN
          IF ~(A.clean /\ B.clean) THEN {}
          ELSE IF ~AB.clean \/ AB.out # A.out \o B.out THEN {Mk("concatenation differs", <<e.a, e.b, e.ab>>)} ELSE {}
+    [] e.kind = "catany" ->  \* the same for runs that may carry per-statement diagnostics (a statement gosk reports and skips is skipped in
+                             \* A;B exactly as in A): only the three runs have to end normally
+         LET AB == res[e.ab] IN
+         IF A.status # "ok" \/ B.status # "ok" THEN {}
+         ELSE IF AB.status # "ok" \/ AB.out # A.out \o B.out THEN {Mk("concatenation differs", <<e.a, e.b, e.ab>>)} ELSE {}
     [] e.kind = "org" ->     \* b = a relocated by e.delta: same lengths; statements differ only where they embed absolute addresses
          IF ~(A.clean /\ B.clean) THEN (IF A.clean # B.clean THEN {Mk("outcome class differs", <<e.a, e.b>>)} ELSE {})
          ELSE IF Len(A.sb) - e.sa # Len(B.sb) - e.sb THEN {Mk("statement count differs", <<e.a, e.b>>)}
